@@ -6,6 +6,8 @@ on the real outputs (independent Python statement with Fractions / scipy)."""
 import itertools
 from fractions import Fraction as F
 
+import math
+
 import numpy as np
 import scipy.stats as ss
 
@@ -191,6 +193,24 @@ def check_var_ess(ctx):
             expn = float(sum((a - m) ** 2 for a in x) / (n - 1))
             if ctx.dev(gotn, expn) > 1e-9:
                 ctx.fail_input(dict(fn='weighted_var', x=case['x'], w=None), 'weighted_var(weights=None) = %r, unbiased sample variance = %r' % (gotn, expn), expn, gotn)
+        # the SAME function on floats, location large relative to the spread: the value must still be the formula's value (the exact
+        # rational run above cannot see cancellation; here the exact value of the float inputs is the reference)
+        if n >= 3 and rng.random() < .35:
+            off = rng.choice([0.0, 1e3, 1e6, 1e8])
+            xf = np.array([off + rng.gauss(0, 1) for _ in range(n)])
+            wf = np.array([rng.choice([0.0, 1.0, 1.0, 2.0, 0.5, 3.0]) for _ in range(n)])
+            xq, wq = [F(float(v)) for v in xf], [F(float(v)) for v in wf]
+            Sq, S2q = sum(wq), sum(v * v for v in wq)
+            if Sq != 0 and Sq - S2q / Sq != 0:
+                muq = sum(a * b for a, b in zip(xq, wq)) / Sq
+                expq = sum(b * (a - muq) ** 2 for a, b in zip(xq, wq)) / (Sq - S2q / Sq)
+                ctx.count('var.float_offset', '%g' % off)
+                if expq > 0:
+                    gotf = float(weighted_var(xf, wf))
+                    if not math.isclose(gotf, float(expq), rel_tol=1e-5, abs_tol=0):
+                        ctx.fail_input(dict(fn='weighted_var', x=xf.tolist(), w=wf.tolist(), floats=True),
+                                       'weighted_var on floats = %r, the reliability-weights formula evaluated exactly on the same inputs gives %r' % (gotf, float(expq)),
+                                       float(expq), gotf)
         # ESS
         case2 = dict(fn='compute_ess', w=[q2j(v) for v in w])
         ctx.case(case2, n >= 2)
